@@ -1233,11 +1233,19 @@ class CodeGenerator(NodeVisitor):
         # try to figure out if we have an extended loop.  An extended loop
         # is necessary if the loop is in recursive mode if the special loop
         # variable is accessed in the body if the body is a scoped block.
+        # Templates included or imported with context get the local
+        # variables as well and must find this loop's variable there.
         extended_loop = (
             node.recursive
             or "loop"
             in find_undeclared(node.iter_child_nodes(only=("body",)), ("loop",))
             or any(block.scoped for block in node.find_all(nodes.Block))
+            or any(
+                child.with_context
+                for child in node.find_all(
+                    (nodes.Include, nodes.Import, nodes.FromImport)
+                )
+            )
         )
 
         loop_ref = None
